@@ -2773,7 +2773,51 @@ func ruleDEFERDISARM(p *Program, r *Reporter) {
 			reconn = prm
 		}
 	}
+	refsShutdown := func(v ssa.Value) bool {
+		if mi, ok := v.(*ssa.MakeInterface); ok {
+			v = mi.X
+		}
+		if ld, ok := v.(*ssa.UnOp); ok {
+			if g, ok := ld.X.(*ssa.Global); ok && g.Name() == "ErrShutdown" {
+				return true
+			}
+		}
+		return false
+	}
+	var callTestsShutdown func(c *ssa.Call, depth int) bool
+	callTestsShutdown = func(c *ssa.Call, depth int) bool {
+		for _, a := range c.Call.Args {
+			if refsShutdown(a) {
+				return true
+			}
+		}
+		sc := c.Call.StaticCallee()
+		if sc == nil || depth > 2 || pkgOf(sc) != "client" {
+			return false
+		}
+		if bt, ok := sc.Signature.Results().At(0).Type().Underlying().(*types.Basic); sc.Signature.Results().Len() != 1 || !ok || bt.Kind() != types.Bool {
+			return false
+		}
+		for _, b := range sc.Blocks {
+			for _, ins := range b.Instrs {
+				switch x := ins.(type) {
+				case *ssa.Call:
+					if callTestsShutdown(x, depth+1) {
+						return true
+					}
+				case *ssa.BinOp:
+					if x.Op == token.EQL && (refsShutdown(x.X) || refsShutdown(x.Y)) {
+						return true
+					}
+				}
+			}
+		}
+		return false
+	}
 	isShutdownTest := func(c ssa.Value) bool {
+		if call, ok := c.(*ssa.Call); ok {
+			return callTestsShutdown(call, 0)
+		}
 		bo, ok := c.(*ssa.BinOp)
 		if !ok || bo.Op != token.EQL {
 			return false
